@@ -28,7 +28,6 @@ class PropBase:
     prefixes = ("out", "q", "r", "lr")
     rule = ""
     oracle_text = ""
-    stated_not_proved = []
     assumptions = []
     quick_cases = 96
     thorough_cases = 1500
@@ -49,9 +48,22 @@ class PropBase:
         d = os.path.join(mrl.ROOT, "corpus", self.pid)
         cases = []
         if os.path.isdir(d):
-            for fn in sorted(os.listdir(d)):
-                cmds = [l.strip() for l in open(os.path.join(d, fn)) if l.strip() and not l.startswith("#") and not l.startswith("case ")]
-                cases.append(("corpus-" + fn, cmds))
+            for k, fn in enumerate(sorted(os.listdir(d))):
+                # one case per file: the first `case <id>` block; the original case id is kept at the end of
+                # the new id because some oracles read their metadata from it
+                orig, cmds, seen = "x", [], 0
+                for l in open(os.path.join(d, fn)):
+                    l = l.strip()
+                    if not l or l.startswith("#"):
+                        continue
+                    if l.startswith("case "):
+                        seen += 1
+                        if seen > 1:
+                            break
+                        orig = l[5:].split("~")[-1]
+                        continue
+                    cmds.append(l)
+                cases.append(("corpus%d-%s~%s" % (k, fn.replace(".script", "").replace("_", "-"), orig), cmds))
         return cases
 
     def gen_one(self, rng, i):
@@ -192,7 +204,6 @@ class C05(PropBase):
             "distinct = distinct (outcome, I/O event) transcripts")
     oracle_text = ("independent Python reference map (tools/mrl.py RefMap): every outcome, the full observable state "
                    "after every call and every range result must equal the specification's")
-    stated_not_proved = []
 
     def gen_one(self, rng, i):
         profile = "mixed"
@@ -290,7 +301,6 @@ def summarize(o):
 # =========================================================================== C01
 class C01(PropBase):
     pid = "C01"
-    stated_not_proved = ["nothing essential: C01_restart_identity / C01_history_spec are proved end to end for histories from a fresh directory under hist_ok (well-formed arguments, stream below 2^64 files); directories that did not start fresh (numbering gaps, pre-existing foreign WAL-named files) and u64 overflow of positions are outside the theorem and covered by the correspondence and the oracle"]
     prefixes = ("out", "ev", "q", "r", "lr", "ls")
     policies = ["af", "as", "no", "dif", "d0s"]
     rule = ("HistGen histories (1-4 queues, cursor-aimed payload lengths, roll-over, truncation-driven GC, delete and "
@@ -336,7 +346,8 @@ class C01(PropBase):
         last_obs = None
         for i, c in enumerate(tr):
             if c["name"] in ("create", "delete", "append", "truncate", "persist"):
-                last_obs = logical(obs_of(c))
+                if "err=NoLog" not in (outcome_of(c) or ""):
+                    last_obs = logical(obs_of(c))
             elif c["name"] == "open":
                 out = outcome_of(c)
                 if i > 0 and tr[i - 1]["name"] == "drop":
@@ -496,8 +507,6 @@ class C16(PropBase):
             "ending with a truncation of every queue to its last position; non-trivial/distinct as for C01")
     oracle_text = ("after every call: memory_used_bytes == sum over queues of (name bytes + retained payload bytes + K*records) with "
                    "K = size_of::<RecordMeta>() read from the crate at run time; used <= allocated; names-only once every queue is empty")
-    stated_not_proved = ["memory_used_bytes <= memory_allocated_bytes is a statement about std's allocator-backed capacities (String, Vec, VecDeque): "
-                         "checked at run time after every call, proved only from the contract len <= capacity (C16_used_le_allocated_from_contract)"]
 
     def gen_one(self, rng, i):
         if i % 12 == 5:
